@@ -35,6 +35,107 @@ func C01(c *core.Ctx) {
 		return len(rows) >= 4
 	})
 	c01free(c, rng)
+	c01stages(c, rng)
+	for _, fam := range []string{"unvalued", "valued", "close"} {
+		ledgerGen(c, fam, c.Pick(700, 30000))
+	}
+}
+
+func canon(s string) (string, int) {
+	sg := 1
+	if strings.HasPrefix(s, "-") {
+		sg, s = -1, s[1:]
+	}
+	if strings.Contains(s, ".") {
+		s = strings.TrimRight(strings.TrimRight(s, "0"), ".")
+	}
+	if s == "0" || s == "" {
+		return "0", 0
+	}
+	return s, sg
+}
+
+// c01stages: the verif hook records every transaction of every day after every pipeline stage of
+// the real `knut balance` run; TLC checks the pair invariant at each of those points and that no
+// stage drops or alters a booking (C01's mechanism, observed on the real execution).
+func c01stages(c *core.Ctx, rng *rand.Rand) {
+	bin := c.Knut("verif")
+	dir := filepath.Join(c.Work, "c01stages")
+	os.MkdirAll(dir, 0o755)
+	n := c.Pick(120, 1500)
+	type job struct {
+		j *kj.Journal
+		f *kj.Flags
+	}
+	jobs := make([]job, n)
+	for i := range jobs {
+		valued := i%3 != 0
+		j := kj.Random(rng, kj.GenOpts{Valued: valued, Accruals: !valued, MaxDirs: 8, DensePrices: i%2 == 0}, 18262+rng.Intn(60))
+		if valued && i%2 == 0 { // free regime
+			j.QS = 100
+			for k := range j.Dirs {
+				switch j.Dirs[k].K {
+				case "price":
+					j.Dirs[k].P = 1000 + rng.Intn(30000)
+				case "trx":
+					bk := append([]kj.Booking(nil), j.Dirs[k].Bk...)
+					for b := range bk {
+						bk[b].Q = bk[b].Q*100 + rng.Intn(100)
+					}
+					j.Dirs[k].Bk = bk
+				}
+			}
+		}
+		jobs[i] = job{j, randomFlags(rng, j, flagOpts{Valued: valued, Mapping: i%4 == 1})}
+	}
+	run := func(i int) map[string]any {
+		d := filepath.Join(dir, fmt.Sprintf("s%d", i))
+		os.RemoveAll(d)
+		os.MkdirAll(d, 0o755)
+		defer os.RemoveAll(d)
+		text := jobs[i].j.Render()
+		os.WriteFile(filepath.Join(d, "j.knut"), []byte(text), 0o644)
+		trace := filepath.Join(d, "trace.ndjson")
+		args := append(append([]string{"balance", "--color=false"}, jobs[i].f.Args()...), "j.knut")
+		r := core.Run(core.RunOpts{Dir: d, Timeout: 60 * time.Second, Env: []string{"VERIF_TRACE=" + trace, fmt.Sprintf("VERIF_SCHED_SEED=%d", i)}}, bin, args...)
+		evs, _ := readHookTrace(trace)
+		days := map[string]int{}
+		events := []any{}
+		for _, e := range evs {
+			if e.Ev != "StageDay" {
+				continue
+			}
+			if _, ok := days[e.Day]; !ok {
+				days[e.Day] = len(days) + 1
+			}
+			trx := []any{}
+			for _, t := range e.Trx {
+				ps := []any{}
+				for _, p := range t {
+					m := p.(map[string]any)
+					qa, qsg := canon(fmt.Sprint(m["q"]))
+					va, vsg := canon(fmt.Sprint(m["v"]))
+					ps = append(ps, map[string]any{"a": m["a"], "o": m["o"], "c": m["c"], "qa": qa, "qsg": qsg, "va": va, "vsg": vsg})
+				}
+				trx = append(trx, ps)
+			}
+			events = append(events, map[string]any{"stage": e.Stage, "of": e.Of, "d": days[e.Day], "trx": trx, "sorted": false})
+		}
+		return map[string]any{"id": 3000000 + i, "kind": "stages", "events": events, "exit": r.Exit, "argv": strings.Join(args, " "), "text": text, "stderr": r.Stderr}
+	}
+	cases := make([]map[string]any, n)
+	core.Parallel(n, func(i int) { cases[i] = run(i) })
+	nev := 0
+	for _, cs := range cases {
+		nev += len(cs["events"].([]any))
+	}
+	c.Add("evaluations", n)
+	c.Add("stage_day_events_validated", nev)
+	c.JudgeAndReport("Trace_Ledger", "Trace_Ledger.cfg", cases, 16,
+		func(old map[string]any) map[string]any { return run(old["id"].(int) - 3000000) },
+		func(cs map[string]any) (string, string) {
+			return "C01:stages-" + fmt.Sprint(cs["why"]), fmt.Sprintf("knut %v (verif hook trace): %v\n--- journal\n%v\n%v", cs["argv"], cs["why"], cs["text"], cs["stderr"])
+		})
 }
 
 // c01free: valued reports outside the model's integer regime (2-decimal quantities, arbitrary
@@ -51,7 +152,7 @@ func c01free(c *core.Ctx, rng *rand.Rand) {
 	}
 	jobs := make([]job, n)
 	for i := range jobs {
-		j := kj.Random(rng, kj.GenOpts{Valued: true, MaxDirs: 12, DensePrices: i%2 == 0}, 18262+rng.Intn(60))
+		j := kj.Random(rng, kj.GenOpts{Valued: true, Accruals: true, AltQuotes: i%3 == 0, MaxDirs: 12, DensePrices: i%2 == 0}, 18262+rng.Intn(60))
 		j.QS = 100
 		for k := range j.Dirs {
 			switch j.Dirs[k].K {
